@@ -1,5 +1,7 @@
 import NanoVerif.Model.Proto
 import NanoVerif.Model.Stats
+import NanoVerif.Model.StatsTyped
+import NanoVerif.Model.StatsExp
 /-! driver family `stats` (C20): the model of `Model/Stats.lean` run at `Float`; one self-contained op per line -/
 namespace NanoVerif.Driver.Stats
 open NanoVerif.Proto NanoVerif.Stats
@@ -10,6 +12,29 @@ instance : FloorI Float where
   ceil x := x.ceil.toInt64.toInt
 
 instance : HasSqrt Float := ⟨Float.sqrt⟩
+
+/-- the libm of the C++ build: `std::log`, `std::pow(base, double(e))`, `std::fabs` -/
+instance : Libm Float where
+  log := Float.log
+  powi b e := Float.pow b (Float.ofInt e)
+  fabs := Float.abs
+
+/-- an integer container (`std::vector<int>`, `std::vector<int64_t>`): the wire carries integral doubles -/
+def toInts (vs : List Float) : List Int := vs.map (fun x => x.toInt64.toInt)
+
+/-- `percentile_sorted` / `percentile` through the container-typed model: `d f t` hold doubles (floats that are exactly
+    representable), `i l` hold integers converted by `static_cast<double>` at the read -/
+def pctTyped (kind type : String) (vs : List Float) (p : Float) : Option Float :=
+  let isInt := type == "i" || type == "l"
+  match kind with
+  | "sorted" | "positional" =>
+    if isInt then percentileSortedC Float.ofInt (toInts vs) p else percentileSortedC id vs p
+  | "unsorted" =>
+    if isInt then (percentileNthC Float.ofInt nthBySort (toInts vs) p).map (·.1)
+    else (percentileNthC id nthBySort vs p).map (·.1)
+  | _ => none
+
+def iotaF (n : Nat) : List Float := (List.range n).map Float.ofNat
 
 def fsort : List Float → List Float := msort
 
@@ -28,21 +53,45 @@ def showHist (h : Hist Float) (qs : List Float) : String :=
   s!"{showList showOptF (st.map (·.median))} {showNats (qs.map h.bin)} {showNats (qi.map h.bin)}"
 
 def handle : Toks → Option String
-  | "pct" :: kind :: _type :: ts => do
+  | "pct" :: kind :: type :: ts => do
     let (vs, ts) ← pList pFloat ts
     let (p, ts) ← pFloat ts
+    -- `unsorted`: the harness appends the caller's range as `nth_element` left it (checked by the python monitor)
+    let ts ← match ts with
+      | "post" :: ts' => (pList pFloat ts').map (·.2)
+      | _ => some ts
     guard ts.isEmpty
-    let r ← match kind with
-      | "sorted" => percentileSorted vs p
+    let r ← pctTyped kind type vs p
+    -- the container-typed model and the plain one of `Model/Stats.lean` must agree (`percentileSortedC_eq_map`,
+    -- `percentileNthC_spec`)
+    let r' ← match kind with
       | "unsorted" => percentile fsort vs p
-      | _ => none
+      | _ => percentileSorted vs p
+    guard (hexOfFloat r == hexOfFloat r')
     pure s!"ok {hexOfFloat r}"
-  | "median" :: _type :: ts => do
+  | "median" :: type :: ts => do
     let (vs, ts) ← pList pFloat ts
     guard ts.isEmpty
-    let a ← median fsort vs
-    let b ← medianSorted (fsort vs)
+    let a ← pctTyped "unsorted" type vs 50
+    let b ← pctTyped "sorted" type (fsort vs) 50
     pure s!"ok {hexOfFloat a} {hexOfFloat b}"
+  -- the whole (p, n) grid of positions: percentages k / den, k = 0 … 100 den, on the list 0 … n-1 (reversed for `unsorted`)
+  | "grid" :: kind :: type :: ts => do
+    let (n, ts) ← pNat ts
+    let (den, ts) ← pNat ts
+    guard ts.isEmpty
+    guard (n > 0 ∧ den > 0)
+    let xs := if kind == "unsorted" then (iotaF n).reverse else iotaF n
+    let rs ← mapOpt (fun (k : Nat) => pctTyped kind type xs (Float.ofNat k / Float.ofNat den)) (List.range (100 * den + 1))
+    pure s!"ok {showFloats rs}"
+  | "linspaced" :: kind :: ts => do
+    let (bins, ts) ← pNat ts
+    guard ts.isEmpty
+    let xs ← match kind with
+      | "ratios" => equidistantRatios (α := Float) bins
+      | "pcts" => equidistantPercentiles (α := Float) bins
+      | _ => none
+    pure s!"ok {showFloats xs}"
   | "hist" :: ctor :: ts => do
     let (vs, ts) ← pList pFloat ts
     match ctor with
@@ -64,41 +113,43 @@ def handle : Toks → Option String
       guard ts.isEmpty
       let h ← histFromPercentiles fsort vs ps
       pure (showHist h qs)
-    -- equidistant ratios / percentiles: the list produced by `make_equidistant_*` (Eigen `LinSpaced`) is read
-    -- back from the implementation (`aug`), the rest of the constructor is the model's
+    -- equidistant ratios / percentiles: `make_equidistant_*` (Eigen `LinSpaced`) is the model's `linSpaced`; the list read
+    -- back from the implementation (`aug`) is only used by the python oracle
     | "eqratios" =>
       let (_bins, ts) ← pNat ts
       let (qs, ts) ← pList pFloat ts
       let (_, ts) ← pStr ts
-      let (rs, ts) ← pList pFloat ts
+      let (_rs, ts) ← pList pFloat ts
       guard ts.isEmpty
-      let h ← histFromRatios fsort vs rs
+      let h ← histFromEqRatios fsort vs _bins
       pure (showHist h qs)
     | "eqpcts" =>
       let (_bins, ts) ← pNat ts
       let (qs, ts) ← pList pFloat ts
       let (_, ts) ← pStr ts
-      let (ps, ts) ← pList pFloat ts
+      let (_ps, ts) ← pList pFloat ts
       guard ts.isEmpty
-      let h ← histFromPercentiles fsort vs ps
+      let h ← histFromEqPercentiles fsort vs _bins
       pure (showHist h qs)
-    -- make_from_exponents: the pow/log thresholds are read back from the implementation (`aug`)
+    -- make_from_exponents: the log / floor / pow formula is the model's (`Libm Float` = the libm of the C++ build); the
+    -- thresholds read back from the implementation (`aug`) are only used by the python oracle
     | "exp" =>
-      let (_base, ts) ← pFloat ts
-      let (_eps, ts) ← pFloat ts
+      let (base, ts) ← pFloat ts
+      let (eps, ts) ← pFloat ts
       let (qs, ts) ← pList pFloat ts
       let (_, ts) ← pStr ts
-      let (thr, ts) ← pList pFloat ts
+      let (_thr, ts) ← pList pFloat ts
       guard ts.isEmpty
-      guard (!vs.isEmpty)
-      let h ← mkHist fsort vs thr
+      let h ← histFromExponents fsort vs base eps
       pure (showHist h qs)
     | _ => none
   | "store" :: ts => do
     let (vs, ts) ← pList pFloat ts
     guard ts.isEmpty
     let st ← storeStats fsort vs
-    pure s!"ok {showFloats st}"
+    -- through `ml::load_stats`: the fields of `stats_t` in declaration order
+    let ld ← loadStats st
+    pure s!"ok {showFloats ld.toList}"
   | _ => none
 
 end NanoVerif.Driver.Stats
